@@ -20,7 +20,7 @@ def c03 (op : String) (args : List String) (impl : String) : Verdict :=
       let model := showRes hexOf (encode md5 p)
       let implOk := impl.startsWith "ok "
       let w := match impl.splitOn " " with
-        | [_, wh] => (unhex wh).getD []
+        | _ :: wh :: _ => (unhex wh).getD []
         | _ => []
       let cls := Rfc.encClass code
       let fits := specMarshalOk attrs
@@ -32,7 +32,8 @@ def c03 (op : String) (args : List String) (impl : String) : Verdict :=
       mk impl model ([noCrash impl,
           ("refused_iff_unknown_code_or_oversize", implOk == (cls != .refused && fits))] ++
         (if implOk then
-          [("authenticator_field_per_rfc", auth16 w == expectAuth),
+          [("encoding_again_gives_the_same_datagram", (impl.splitOn " ").length == 2),
+           ("authenticator_field_per_rfc", auth16 w == expectAuth),
            ("rest_of_datagram_is_marshal", w.take 4 == (header code (UInt8.ofNat id) (20 + (encodeBytes attrs).length) []) &&
               w.drop 20 == encodeBytes attrs)]
          else []))
